@@ -25,6 +25,10 @@ CLAIMS = {
     'C05': dict(tech='well-formedness predicate (Obs.tla WellFormedMismatches) evaluated by TLC on the raw, un-abstracted ranges of every recorded list result',
                 text='Uniqueness of (src,dst), no self / ip-ip / empty entries, IP peers form a partition of 0.0.0.0-255.255.255.255 into single ranges, canonical port ranges, all-connections flag <=> three full ranges: '
                      'checked by TLC on every list observation of NetworkPolicy and admin-policy worlds.', ref='6/C05'),
+    'C06': dict(tech='TLA+ reference of exposure soundness over hypothetical pods (ExposureRef.tla: labels over the governing policies\' vocabulary + fresh, existing and new namespaces, single named-port declarations for egress); list --exposure runs (ExposedPeers() through the API, named ports through the verif shim) recorded for TLC-generated and seeded worlds and judged by TLC',
+                text='For every replayed NetworkPolicy world: the exposure run reports the same workload/IP connectivity as the plain run; protected flags <=> governed; every reported entry is realizable for every hypothetical pod satisfying its selectors (every pod for entire-cluster): Conc(entry, pod) is contained in what the workload\'s policies of that direction allow. The hypothetical-pod set is exhaustive for the world\'s selector vocabulary.', ref='6/C06'),
+    'C07': dict(tech='TLA+ reference of exposure completeness over hypothetical pods (ExposureRef.tla, AllowedNonOmittable / Omittable); same recorded runs as C06, judged by TLC',
+                text='For every workload protected in a direction and every hypothetical pod of the bounded-but-exhaustive set, every point the workload\'s policies allow through a non-omittable rule peer is covered by the entire-cluster entry or by an entry whose selectors the pod satisfies (named ports: as declared by the pod for egress).', ref='6/C07'),
     'C08': dict(tech='Determinism events: every command x format x exposure run twice on 4 layouts of the same abstract world (canonical; split/permuted over nested directories with List wrapping; semantically unordered rule/peer/port lists permuted), output hashes compared by TLC (Obs.tla DeterminismMismatches); worlds from TLC behaviours and seeded generators',
                 text='All outputs for one key (command/format/exposure) must be byte-identical across layouts and repeats, for list (5 formats, exposure on/off) and diff (4 formats) on every replayed world. '
                      'The layout dimension is explored systematically per world; Go map-iteration schedules are only sampled (exploration-level for that dimension).', ref='6/C08',
